@@ -69,6 +69,14 @@ class SOpt:
         self.isnone, self.val = isnone, val
 
 
+class SGen:
+    """a generator object: can be iterated ONCE (python generators are exhausted after the first full pass)"""
+
+    def __init__(self, sl):
+        self.sl = sl
+        self.consumed = False      # raw bool
+
+
 class PyIter:
     """iterator over an SList (for iter()/next())"""
 
